@@ -21,7 +21,7 @@ func (d *simDoc) Analyze() {}
 func (d *simDoc) EachField(vf segment.VisitField) {
 	for i := range d.d.Fields {
 		d.sched.Yield(evDocIter, uint64(i))
-		vf(&simField{f: &d.d.Fields[i], dv: d.dv[d.d.Fields[i].Name], sched: d.sched})
+		vf(&simField{f: &d.d.Fields[i], dv: d.dv[d.d.Fields[i].Name] && !d.d.Fields[i].NoDV, sched: d.sched})
 	}
 }
 
